@@ -156,3 +156,23 @@ pub fn run_find_bin(args: &[&str], cwd: &std::path::Path, stdin: Option<&[u8]>) 
         err: o.stderr,
     }
 }
+
+/// Binary-level cross-validation of one in-process run: the hooks-off find binary, same argv and
+/// cwd, must produce the same stdout and exit status. Returns Err(description) on disagreement
+/// (a machinery error: the two bindings to the code must coincide).
+pub fn cross_check_bin(args: &[&str], inproc: &FindOut) -> Result<(), String> {
+    let cwd = std::env::current_dir().map_err(|e| e.to_string())?;
+    let b = run_find_bin(args, &cwd, None);
+    if b.out != inproc.out || b.code != inproc.code {
+        return Err(format!(
+            "in-process and binary bindings disagree on find {:?}: in-process status {:?} / {} bytes, binary status {:?} / {} bytes; first binary stderr line {:?}",
+            args.iter().take(12).collect::<Vec<_>>(),
+            inproc.code,
+            inproc.out.len(),
+            b.code,
+            b.out.len(),
+            String::from_utf8_lossy(&b.err).lines().next().unwrap_or("")
+        ));
+    }
+    Ok(())
+}
